@@ -15,6 +15,7 @@
        (1 limit (ids)) newIndexDeleter, pops, finish+write   -> (opencls) | (0 (cls...) lastID)
        (2 q) readGreaterThan | (3 q) SeekGT+Next* | (4) Next*  -> as above with opencls
        (5) dump                                              -> (x<meta> ((id x<block>)...))
+       (6 tail) index pruner scan with the given tail         -> (blocks-pruned)
    (2 x<blob> (q...))            malformed block: parseIndexBlock, parseIndex, reader queries
    (3 x<meta> ((id x<blob>)...) (q...))   malformed store: index reader queries
    (4 x<blob> max entries limit n)  malformed block under a WRITER: newBlockWriter(blob,
@@ -210,6 +211,8 @@ Definition index_op (db : idb) (op : sx) : idb * sx :=
            | Ok r => index_drain_obs db r
            end)
   | SL [SI 5%Z] => (db, db_dump db)
+  | SL [SI 6%Z; SI tail] =>
+      let '(db', n) := prune_entry db (Z.to_N tail) in (db', SL [snat n])
   | _ => (db, SErr 1)
   end.
 
